@@ -1,22 +1,22 @@
-import OpacusLean.Lemmas.RdpMoment
-import OpacusLean.Lemmas.RdpConversion
+import OpacusLean.Lemmas.RdpCompose
+import OpacusLean.Lemmas.RdpFrac
 /-! # C06 — the RDP accountant never under-reports
 
-The definitions `logAInt`, `computeRdp1`, `epsAt`, `getPrivacySpent`, `acctPrivacySpent` are the
+The definitions `logAInt`, `computeRdp1`, `epsAt`, `getPrivacySpent`, `histRdp`, `acctEpsilon` are the
 generic-scalar transcription of `opacus/accountants/analysis/rdp.py` / `accountants/rdp.py`
 (`Model/Rdp.lean`, `Model/AcctHistory.lean`); the drivers run them at `Float`, the theorems below
-are about the *same* definitions at `ℝ`. -/
+are about the *same* definitions at `ℝ` (instance in `Lemmas/RdpReal.lean`).
+
+Canonical pair of one Poisson-subsampled Gaussian step with sampling rate `q` and noise multiplier
+`σ` (sensitivity 1): `Q = N(0,σ²)`, `P = (1−q)·N(0,σ²) + q·N(1,σ²)`; `ratio q σ² = dP/dQ`.
+The order-α Rényi divergence is `D_α(P‖Q) = (α−1)⁻¹ · log ∫ (dP/dQ)^α dQ`.
+
+Cited, not proved (Mironov–Talwar–Zhang 2019): over all neighbouring datasets the RDP of the
+mechanism is attained on this pair, and `D_α(P‖Q) ≥ D_α(Q‖P)`.  Fractional orders: no theorem
+(see `frac_series_early_stop_counterexample`). -/
 namespace Opacus.C06
 open Opacus.Rdp MeasureTheory ProbabilityTheory Real
 open scoped NNReal
-
-/-- variance `σ²` as an `ℝ≥0` -/
-noncomputable def var (s : ℝ) : ℝ≥0 := ⟨s * s, mul_self_nonneg s⟩
-
-theorem var_ne_zero {s : ℝ} (hs : s ≠ 0) : var s ≠ 0 := by
-  intro h
-  have : s * s = 0 := congrArg NNReal.toReal h
-  exact hs (mul_self_eq_zero.mp this)
 
 /-- integer-order moment of the sampled Gaussian mechanism:
 `∫ ((1−q)+q·e^{(2x−1)/(2σ²)})^α dN(0,σ²) = Σ_k C(α,k)(1−q)^{α−k} q^k e^{(k²−k)/(2σ²)}` -/
@@ -26,10 +26,14 @@ theorem sgm_moment_int (q : ℝ) (v : ℝ≥0) (hv : v ≠ 0) (α : ℕ) :
           (α.choose k : ℝ) * (1 - q) ^ (α - k) * q ^ k * rexp (((k:ℝ) ^ 2 - k) / (2 * v)) :=
   sgm_moment_eq_sgmSum q v hv α
 
-/-- the base of the integrand is the density ratio `dP/dQ` of the canonical pair -/
-theorem ratio_is_density (q : ℝ) (v : ℝ≥0) (hv : v ≠ 0) (x : ℝ) :
-    (1 - q) * gaussianPDFReal 0 v x + q * gaussianPDFReal 1 v x
-      = ratio q v x * gaussianPDFReal 0 v x := ratio_mul_pdf q v hv x
+/-- the base of the integrand is the density ratio `dP/dQ` of the canonical pair: pointwise on the
+Gaussian densities, and as measures `P(S) = ∫_S ratio dQ` -/
+theorem ratio_is_density {q : ℝ} (hq0 : 0 ≤ q) (hq1 : q ≤ 1) (v : ℝ≥0) (hv : v ≠ 0) :
+    (∀ x, (1 - q) * gaussianPDFReal 0 v x + q * gaussianPDFReal 1 v x
+        = ratio q v x * gaussianPDFReal 0 v x)
+      ∧ ∀ S : Set ℝ, MeasurableSet S →
+          (sgmP q v S).toReal = ∫ x in S, ratio q v x ∂(gaussianReal 0 v) :=
+  ⟨ratio_mul_pdf q v hv, fun _ hS => sgmP_apply hq0 hq1 v hv hS⟩
 
 /-- **the transcribed integer-order loop returns `log` of the true order-α moment** -/
 theorem log_a_int_correct {q s : ℝ} (hq0 : 0 < q) (hq1 : q < 1) (hs : s ≠ 0) (α : ℕ) :
@@ -38,14 +42,94 @@ theorem log_a_int_correct {q s : ℝ} (hq0 : 0 < q) (hq1 : q < 1) (hs : s ≠ 0)
 
 example : ∃ q s : ℝ, 0 < q ∧ q < 1 ∧ s ≠ 0 := ⟨1/2, 1, by norm_num, by norm_num, by norm_num⟩
 
-/-- Balle et al. 2020 Thm 21 for the ε that `get_privacy_spent` computes -/
+/-- **`_compute_rdp` at an integer order equals the Rényi divergence of the canonical pair**
+(`= (α−1)⁻¹ log E_Q[(dP/dQ)^α]`; in particular it is not below it) — all branches `0 ≤ q ≤ 1`. -/
+theorem compute_rdp_eq_renyi (cfg : Cfg ℝ) {q s : ℝ} (hq0 : 0 ≤ q) (hq1 : q ≤ 1) (hs : s ≠ 0) {n : ℕ}
+    (hn : 2 ≤ n) :
+    computeRdp1 cfg q s (.int n)
+      = .ok (.fin (Real.log (∫ x, (ratio q (var s) x) ^ n ∂(gaussianReal 0 (var s))) / ((n : ℝ) - 1))) := by
+  have hn1 : ((n : ℝ) - 1) ≠ 0 := by
+    have : (2 : ℝ) ≤ n := by exact_mod_cast hn
+    intro h; linarith
+  rw [computeRdp1_int cfg hq0 hq1 hs hn, moment_eq_exp_rdpR hq0 hq1 hs hn, Real.log_exp,
+    mul_div_cancel_left₀ _ hn1]
+
+/-- the `q = 1` branch `α/(2σ²)` is the Gaussian mechanism's RDP, at every real order `a ≠ 1`:
+`(a−1)⁻¹ log ∫ (dN(1,σ²)/dN(0,σ²))^a dN(0,σ²) = a/(2σ²)` -/
+theorem rdp_q_one (cfg : Cfg ℝ) {s : ℝ} (hs : s ≠ 0) {a : ℝ} (ha : a ≠ 1) :
+    computeRdp1 cfg 1 s (.frac a) = .ok (.fin (a / (2 * (s * s))))
+      ∧ Real.log (∫ x, (rexp ((2 * x - 1) / (2 * (var s : ℝ)))) ^ a ∂(gaussianReal 0 (var s))) / (a - 1)
+          = a / (2 * (s * s)) := by
+  constructor
+  · simp [computeRdp1, hs, Order.val?]
+  · have ha1 : a - 1 ≠ 0 := sub_ne_zero.mpr ha
+    have hss : s * s ≠ 0 := mul_ne_zero hs hs
+    rw [gaussian_moment (var s) (var_ne_zero hs) a, Real.log_exp, var_coe]
+    field_simp
+
+/-- steps multiply and histories add: the RDP the accountant sums for a history is
+`Σ_runs steps · rdp(q, σ, α)`, additive under concatenation -/
+theorem rdp_compose_add (cfg : Cfg ℝ) (h₁ h₂ : Hist ℝ) (hg₁ : GoodHist h₁) (hg₂ : GoodHist h₂) {n : ℕ}
+    (hn : 2 ≤ n) :
+    histRdp cfg (h₁ ++ h₂) (.int n) = .ok (.fin (totR h₁ n + totR h₂ n))
+      ∧ histRdp cfg h₁ (.int n) = .ok (.fin (totR h₁ n))
+      ∧ ∀ (s q : ℝ) (k : ℕ), totR [(s, q, k)] n = rdpR q s n * k := by
+  refine ⟨?_, histRdp_int cfg hn h₁ hg₁, fun s q k => by simp [totR]⟩
+  have hg : GoodHist (h₁ ++ h₂) := fun e he => by
+    rcases List.mem_append.mp he with he | he
+    · exact hg₁ e he
+    · exact hg₂ e he
+  rw [histRdp_int cfg hn _ hg, totR_append]
+
+/-- Balle et al. 2020 Thm 21 for the ε that `get_privacy_spent` computes: for a finite measure `Q`,
+density `L ≥ 0`, real order `α > 1`: if `∫ L^α dQ ≤ e^{(α−1)ρ}` then `P(S) ≤ e^ε Q(S) + δ` with
+`ε = ρ − (log δ + log α)/(α−1) + log((α−1)/α)` -/
 theorem rdp_to_dp_sound {Ω} [MeasurableSpace Ω] (Q : Measure Ω) [IsFiniteMeasure Q]
     (L : Ω → ℝ) (hL0 : ∀ x, 0 ≤ L x) (hLi : Integrable L Q)
     (α ρ δ : ℝ) (hα : 1 < α) (hδ : 0 < δ)
     (hLα : Integrable (fun x => L x ^ α) Q)
     (hrdp : ∫ x, L x ^ α ∂Q ≤ rexp ((α - 1) * ρ))
     (S : Set Ω) (hS : MeasurableSet S) :
-    ∫ x in S, L x ∂Q ≤ rexp (epsOf ρ α δ) * (Q S).toReal + δ :=
-  rdp_to_dp_sound_gen Q L hL0 hLi α ρ δ hα hδ hLα hrdp S hS
+    ∫ x in S, L x ∂Q ≤ rexp (epsOf ρ α δ) * (Q S).toReal + δ
+      ∧ epsAt (EV.fin ρ) (.frac α) δ = EV.fin (epsOf ρ α δ) :=
+  ⟨rdp_to_dp_sound_gen Q L hL0 hLi α ρ δ hα hδ hLα hrdp S hS, by simp [epsAt, Order.val?, epsOf, log_real]⟩
+
+/-- the arg-min over orders is sound: if at every order of the list the mechanism `(L, Q)` satisfies
+the RDP bound the accountant summed, the ε it returns is a valid `(ε, δ)` guarantee -/
+theorem min_over_orders_sound (cfg : Cfg ℝ) {h : Hist ℝ} (hne : h ≠ []) (hg : GoodHist h) {δ : ℝ}
+    (hδ : 0 < δ) {ns : List ℕ} (hns : ns ≠ []) (hn2 : ∀ n ∈ ns, 2 ≤ n)
+    {Ω} [MeasurableSpace Ω] (Q : Measure Ω) [IsFiniteMeasure Q] (L : Ω → ℝ) (hL0 : ∀ x, 0 ≤ L x)
+    (hLi : Integrable L Q) (hLα : ∀ n ∈ ns, Integrable (fun x => L x ^ (n : ℝ)) Q)
+    (hrdp : ∀ n ∈ ns, ∫ x, L x ^ (n : ℝ) ∂Q ≤ rexp (((n : ℝ) - 1) * totR h n)) :
+    ∃ v, acctEpsilon cfg h δ (ns.map .int) = .ok (.fin v) ∧
+      ∀ S, MeasurableSet S → ∫ x in S, L x ∂Q ≤ rexp v * (Q S).toReal + δ := by
+  obtain ⟨v, hv, ⟨n, hn, hvn⟩, _⟩ := acctEpsilon_int cfg h hne hg δ ns hns hn2
+  refine ⟨v, hv, fun S hS => ?_⟩
+  have h1 : (1 : ℝ) < n := by exact_mod_cast (hn2 n hn)
+  rw [hvn]
+  exact rdp_to_dp_sound_gen Q L hL0 hLi (n : ℝ) (totR h n) δ h1 hδ (hLα n hn) (hrdp n hn) S hS
+
+/-- **ε is valid for the recorded history** (integer orders; non-adaptive composition of the
+canonical pairs of the recorded steps, remove direction): see `Opacus.Rdp.composed_eps_valid`. -/
+theorem eps_valid_for_history (cfg : Cfg ℝ) {h : Hist ℝ} (hne : h ≠ []) (hg : GoodHist h) {k : ℕ}
+    (par : Fin k → ℝ × ℝ) (hp : ∀ i, GoodStep (par i)) (he : expand h = List.ofFn par)
+    {δ : ℝ} (hδ : 0 < δ) {ns : List ℕ} (hns : ns ≠ []) (hn2 : ∀ n ∈ ns, 2 ≤ n) :
+    ∃ v, acctEpsilon cfg h δ (ns.map .int) = .ok (.fin v) ∧
+      ∀ S : Set (Fin k → ℝ), MeasurableSet S →
+        ∫ x in S, prodL par x ∂(prodQ par) ≤ rexp v * (prodQ par S).toReal + δ :=
+  composed_eps_valid cfg hne hg par hp he hδ hns hn2
+
+example : ∃ (h : Hist ℝ) (par : Fin 3 → ℝ × ℝ), h ≠ [] ∧ GoodHist h ∧ (∀ i, GoodStep (par i))
+    ∧ expand h = List.ofFn par :=
+  ⟨[(1, 1/2, 3)], fun _ => (1, 1/2), by simp, by intro e he; simp at he; subst he; norm_num,
+    by intro i; simp [GoodStep]; norm_num, by simp [expand, List.ofFn_succ, List.replicate]⟩
+
+/-- **counterexample for fractional orders (finding C06:frac-series-stops-at-first-term).**
+`q = 1/2, σ = 20, α = 50.5`: the transcribed `_compute_log_a_for_frac_alpha`, with ANY oracle for
+`log_ndtr` that takes values `≤ 0` (as every log-probability does), stops after its first term and
+`_compute_rdp` returns a strictly negative number — below every Rényi divergence. -/
+theorem frac_series_early_stop_counterexample (lnd : ℝ → ℝ) (hl : ∀ x, lnd x ≤ 0) (fuel : ℕ) :
+    ∃ v, computeRdp1 ⟨lnd, fuel + 1, false⟩ (1 / 2) 20 (.frac (101 / 2)) = .ok (.fin v) ∧ v < 0 :=
+  frac_early_stop_witness lnd hl fuel
 
 end Opacus.C06
